@@ -1,4 +1,5 @@
 import TinyFlux.Audit.Tool
 import TinyFlux.Props.C04
 import TinyFlux.Props.C04EndToEnd
+import TinyFlux.Props.C04State
 #audit TinyFlux.Props.C04
